@@ -157,7 +157,7 @@ pub fn print_impl_from<W: std::fmt::Write, T: FromTemplate>(
                                         enum_name, variant, v.switch.var_type,
                                     ),
                                 })
-                                .unwrap_or_else(|| other.to_string()),
+                                .unwrap_or_else(|| SafeName(other).to_string()),
                         };
                         writeln!(
                             w,
